@@ -201,6 +201,18 @@ func panicFunc(s *scope) string {
 	return s.pkgID
 }
 
+// callDeferred runs a deferred call of frame f, the mutex of f being held.
+// A panic raised by the call replaces the current panic of f, so that the
+// remaining deferred calls of f are still run and can recover it.
+func callDeferred(f *frame, val []reflect.Value) {
+	defer func() {
+		if r := recover(); r != nil {
+			f.recovered = r
+		}
+	}()
+	val[0].Call(val[1:])
+}
+
 // runCfg executes a node AST by walking its CFG and running node builtin at each step.
 func runCfg(n *node, f *frame, funcNode, callNode *node) {
 	var exec bltn
@@ -208,7 +220,7 @@ func runCfg(n *node, f *frame, funcNode, callNode *node) {
 		f.mutex.Lock()
 		f.recovered = recover()
 		for _, val := range f.deferred {
-			val[0].Call(val[1:])
+			callDeferred(f, val)
 		}
 		if f.recovered != nil {
 			oNode := originalExecNode(n, exec)
